@@ -62,6 +62,10 @@ CLAIMED['C18'] = ('Coq theorems over Model/Loader.v (load_tasks/generate_tasks/f
          'proof: for every list of task-creators (any nesting, any attribute subset, any top-level type tag, Task objects, delayed creators) loading never ends in an internal exception [C18_total]; on success names are unique and in definition/yield order, sub-tasks are attached to their group which lists them in yield order, targets unique, every task_dep/setup/calc_dep/getargs reference names a task of the set; unknown fields, wrong types (documented table), duplicates, command-name clashes, missing actions/name, dangling references are rejected.  Seven defect families found by the faithful model were repaired in /repo (fix: commits) and are kept as legacy-refuted witnesses',
          'trusted: Coq kernel; hand model Model/Loader.v tied by 6767 (quick) / 33843 (thorough) cases: every attribute x every type tag x 4 item positions, element faults, rule cases, random namespaces, sample through DoitMain; creator ordering is an input; @task_params, result_dep objects, BaseAction instances, set iteration order of file_dep not modelled; fnmatch oracle',
          'DESIGN.md 5-C18')
+CLAIMED['C13'] = ('Coq theorems over Model/Commands.v (forget / ignore / reset-dep and the cmd_base helpers) on top of Status.v/History.v and Runner.v: exact removed set + frame, closure of tasks_and_deps_iter, ignore mark persistence, reset-dep record + correspondence through the real commands on 3 backends',
+         'proof: for every task table, DB and argument form forget removes exactly the documented set (named + sub-tasks; (task_dep u setup)-closure with -s; everything with --all; defaults / all non-sub-tasks when none named) and leaves every other record unchanged; a forgotten task is not up-to-date next (constant-true-uptodate caveat witnessed); ignore marks exactly T and its sub-tasks, the mark persists over any runs until a forget covering the task, and no serial run ever starts a marked task; reset-dep records the state of the present files keeping values/result, or nothing when a file dep is missing.  PARTIAL: that no DEPENDENT of an ignored task is started is proved only locally (C13_ignore_dependents_partial) and checked by the oracle on every real run',
+         'trusted: Coq kernel; hand model tied by 193 (quick) / 1672 (thorough) command applications through DoitMain on json/dbm/sqlite3 with DB dumps and a following recorded run; md5/callables oracles',
+         'DESIGN.md 5-C13')
 NOT_YET = {}
 
 def main():
